@@ -85,7 +85,8 @@ Definition script_of (l : list N) : script :=
   fun k => nth k sl None.
 
 (* ---- server.go / peer.go tokens ---- *)
-Definition akind_of (k : N) : akind := match k with 1 => A4 | 2 => A6 | _ => AInvalid end.
+(* 3 = an IPv4-mapped IPv6 address (::ffff:a.b.c.d): netip reports Is6, not Is4 *)
+Definition akind_of (k : N) : akind := match k with 1 => A4 | 2 => A6 | 3 => A6 | _ => AInvalid end.
 Definition tok_akind (k : akind) : N := match k with AInvalid => 0 | A4 => 1 | A6 => 2 end.
 Definition tok_cfg (c : pcfg) : list N := [tok_akind (a_kind (c_remote c)); a_id (c_remote c); c_las c; c_ras c].
 Definition cfg_key (c : pcfg) : N := tok_akind (a_kind (c_remote c)) * 18446744073709551616 + a_id (c_remote c).
